@@ -484,7 +484,7 @@ fn gen_prog(rng: &mut Rng, arch: Arch) -> Prog {
     let mut is_branch = vec![false; n];
     is_branch[n - 2] = true;
     // entry: mostly the first word, sometimes in the middle (code before it is reached by backward branches)
-    let entry = if n < 8 || rng.chance(3, 5) { 0 } else { rng.below((n / 2) as u64) as usize };
+    let mut entry = if n < 8 || rng.chance(3, 5) { 0 } else { rng.below((n / 2) as u64) as usize };
     let straight = rng.chance(1, 8);
     let nb = if straight { 0 } else { rng.range(1, 2 + (n / 6) as u64) as usize };
     let mut branches: Vec<(usize, BK)> = Vec::new();
@@ -513,6 +513,9 @@ fn gen_prog(rng: &mut Rng, arch: Arch) -> Prog {
         branches.push((i, kind));
     }
     let is_delay: Vec<bool> = (0..n).map(|k| k > 0 && is_branch[k - 1]).collect();
+    while is_delay[entry] {
+        entry -= 1; // a function does not start in a delay slot
+    }
     let pick_target = |rng: &mut Rng, from: usize| -> usize {
         for _ in 0..20 {
             let t = match rng.below(8) {
@@ -601,8 +604,20 @@ fn gen_init(rng: &mut Rng, p: &Prog) -> Init {
     }
     let win = pk!(rng, [0x1000_8000u32, 0x7fff_0fe0, 0x2345_67c0, 0x0000_0100]);
     gpr[BASE_REG as usize] = win;
-    // return address: outside the code (ends the run) or - rarely - back into it
-    gpr[31] = if rng.chance(1, 6) { p.addr(rng.below(p.words.len() as u64) as usize) } else { pk!(rng, [0x0bad_0000u32, 0x7000_0000, 0]) };
+    // return address: outside the code (ends the run) or - sometimes - back into it (an indirect jump to a
+    // word that is the delay slot of a branch is legal but exotic: kept rare, like direct targets of that kind)
+    let is_slot = |k: usize| k > 0 && {
+        let w = p.words[k - 1];
+        matches!(w >> 26, 1..=7) || (w >> 26 == 0 && (w & 0x3f) == 8)
+    };
+    let mut back = rng.below(p.words.len() as u64) as usize;
+    if is_slot(back) && !rng.chance(1, 20) {
+        back -= 1;
+        if is_slot(back) {
+            back = p.entry;
+        }
+    }
+    gpr[31] = if rng.chance(1, 6) { p.addr(back) } else { pk!(rng, [0x0bad_0000u32, 0x7000_0000, 0]) };
     gpr[JR_REG as usize] = if p.manual.is_empty() || rng.chance(1, 10) {
         pk!(rng, [0x0bad_0000u32, p.addr(0), p.addr(p.entry)])
     } else {
